@@ -24,7 +24,7 @@ GROUPS.append(G("fix_InitPass", "harness/C02/h_as.c", "h_InitPass", enforce=[], 
                 note="every callee of another translation unit gets a generated body 'returns anything, writes nothing' (goto-instrument --generate-function-body); callees of other translation units (InitPass callbacks, symbol table resets, CPU selection) are not part of this obligation: only the per-pass state that as.c itself owns"))
 TRUSTED_BASE = ["symbol-table model in h_asmlabel.c = SymbolAdder's proved contract for one label", "stubs of h_asmpars_sym.c"]
 ASSUMPTIONS = ["every code generator uses the value the evaluator returned (C14's domain)", "termination of the pass loop is not decided"]
-NOT_COVERED = ["termination (liveness)", "code generators' use of symbol values", "EnterSymbol/EnterTree between LabelHandle and SymbolAdder"]
+NOT_COVERED = ["per-pass state owned by other translation units (InitPass callbacks of the code generators, symbol table resets)", "termination (liveness)", "code generators' use of symbol values", "EnterSymbol/EnterTree between LabelHandle and SymbolAdder"]
 EXPLANATION = ("Safety half by the lemma of DESIGN.md 3/C01: (a) a changed constant requests a pass, (b) an unknown reference requests a pass or is "
                "an error, (c) a reference reads the stored value, (d) the pass loop ends only with errors or without a pending request. "
                "Termination is not decidable by contracts; the label/padding livelock is a recorded finding.")
@@ -32,7 +32,7 @@ MANIFEST = dict(
     category="other",
     text="Contracts on the kernel functions of the fixpoint argument: SymbolAdder (changed constant => another pass; request never withdrawn), "
          "LookupSymbol (stored value returned; unknown => pass request or error), LabelHandle+LabelModify (label fix-up after padding), and the "
-         "pass loop of AssembleFile (exits only with errors or no pending request). The run-level statement follows by the written lemma; "
+         "pass loop of AssembleFile (exits only with errors or no pending request); AssembleFile_InitPass puts every per-pass variable that as.c owns (PHASE offsets and stacks, counters, open input / section / IF / structure levels) back to its start value, whatever the previous pass left. The run-level statement follows by the written lemma; "
          "termination and the code generators are not decided.",
     note="Known finding C01_PAD_LIVELOCK (label before padded data re-requests a pass forever). Bounded name handling; symbol tree and "
          "EnterSymbol path assumed by SymbolAdder's contract.",
